@@ -133,7 +133,7 @@ class ContainerScenario(Scenario):
         if rng.random() < 0.06:
             return self.gen_cfglist_op(st, rng, c)
         what = rng.choice(["append", "append", "insert", "extend", "extend", "setitem", "setitem_indexobj", "slice_set", "xslice_set",
-                           "iadd", "add", "radd", "mul", "imul", "copy", "pop", "remove", "delitem", "delslice", "sort", "reverse", "clear",
+                           "iadd", "add", "radd", "mul", "imul", "copy", "copy_module", "pop", "remove", "delitem", "delslice", "sort", "reverse", "clear",
                            "index", "count", "contains", "getitem", "getslice", "eq", "iter"])
         op = {"op": "l:" + what, "cfg": c, "name": name}
         if what == "append":
@@ -206,15 +206,17 @@ class ContainerScenario(Scenario):
             return [[key(), val()] for _ in range(rng.choice([0, 1, 2, 3]))]
 
         what = rng.choice(["setitem", "setitem", "update_dict", "update_pairs", "update_kwargs", "update_proxy", "update_mapping",
-                           "update_dict_kwargs", "setdefault", "setdefault_nodefault", "ior", "or", "pop", "pop_default", "popitem",
+                           "update_dict_kwargs", "setdefault", "setdefault_nodefault", "ior", "ior_pairs", "or", "pop", "pop_default", "popitem",
                            "delitem", "clear", "copy", "get", "contains", "keys", "eq"])
         op = {"op": "d:" + what, "cfg": c, "name": name}
         if what in ("setitem", "setdefault"):
             op["k"], op["v"] = key(), val()
         elif what == "setdefault_nodefault":
             op["k"] = key()
-        elif what in ("update_dict", "update_pairs", "ior", "or", "update_mapping"):
+        elif what in ("update_dict", "update_pairs", "ior", "ior_pairs", "or", "update_mapping"):
             op["pairs"] = pairs()
+            if what == "ior_pairs":
+                op["as"] = rng.choice(["list", "tuple", "iter"])
         elif what in ("update_kwargs", "update_dict_kwargs"):
             op["pairs"] = pairs()
             op["kw"] = [[rng.choice(["k1", "k2", "ab"]), val()] for _ in range(rng.choice([1, 2]))]
@@ -402,6 +404,12 @@ class ContainerScenario(Scenario):
                 self.compare(st, rec, "add:" + op.get("src", ""), proxy, m, r, e, r2, e2, check_ret=False)
                 if e is None:
                     self.check_typed_result(st, rec, "add", r, r2, spec, c)
+        elif what == "copy_module":
+            import copy as _copy
+            r, e, r2, e2 = self._both(lambda: _copy.copy(proxy), lambda: _copy.copy(m))
+            self.compare(st, rec, what, proxy, m, r, e, r2, e2, check_ret=False)
+            if e is None:
+                self.check_typed_result(st, rec, "copy", r, r2, spec, c)
         elif what == "radd":
             # a built-in list on the left: list.__add__ decides, the result starts with the left operand's items as given
             left = []
@@ -606,6 +614,11 @@ class ContainerScenario(Scenario):
             other = getattr(st.cfgs[1 - c], name)
             om = st.m[1 - c][name]
             cmpd(what, *self._both(lambda: proxy.update(other), lambda: m.update(dict(om))))
+        elif what == "ior_pairs":
+            # |= takes any iterable of pairs, as the built-in does
+            src = {"list": list(raw_pairs), "tuple": tuple(raw_pairs), "iter": iter(list(raw_pairs))}[op.get("as", "list")]
+            r, e, r2, e2 = self._both(lambda: proxy.__ior__(src), lambda: ref_update(norm_pairs))
+            cmpd(what, r, e, r2, e2, check_ret=False)
         elif what == "ior":
             r, e, r2, e2 = self._both(lambda: proxy.__ior__(raw_d), lambda: ref_update(norm_of_dict))
             cmpd(what, r, e, r2, e2, check_ret=False)
